@@ -309,4 +309,153 @@ theorem dif_step (lo hi : List F) (w : F) (m : Nat) (hlo : lo.length = m) (hhi :
   constructor <;> ring
 
 end Ring
+
+/-! ## 3. bit reversal -/
+
+/-- bit reversal on `k` bits (spec) -/
+def brev : Nat → Nat → Nat
+  | 0, _ => 0
+  | k + 1, a => (a % 2) * 2 ^ k + brev k (a / 2)
+
+theorem brev_lt (k a : Nat) : brev k a < 2 ^ k := by
+  induction k generalizing a with
+  | zero => simp [brev]
+  | succ k ih =>
+    have := ih (a / 2)
+    have h2 : a % 2 < 2 := Nat.mod_lt _ (by omega)
+    rw [brev, pow_succ]
+    nlinarith
+
+@[simp] theorem brev_zero (k : Nat) : brev k 0 = 0 := by
+  induction k with
+  | zero => rfl
+  | succ k ih => simp [brev, ih]
+
+theorem brev_succ' (k a : Nat) : brev (k + 1) a = 2 * brev k (a % 2 ^ k) + a / 2 ^ k % 2 := by
+  induction k generalizing a with
+  | zero => simp [brev]
+  | succ k ih =>
+    rw [brev, ih (a / 2), brev]
+    have e1 : a % 2 ^ (k + 1) % 2 = a % 2 :=
+      Nat.mod_mod_of_dvd _ (dvd_pow_self 2 (Nat.succ_ne_zero k))
+    have e2 : a % 2 ^ (k + 1) / 2 = a / 2 % 2 ^ k := by
+      rw [pow_succ', Nat.mod_mul_right_div_self]
+    have e3 : a / 2 / 2 ^ k = a / 2 ^ (k + 1) := by
+      rw [Nat.div_div_eq_div_mul, pow_succ']
+    rw [e1, e2, e3, pow_succ]
+    ring
+
+theorem brev_brev (k a : Nat) (h : a < 2 ^ k) : brev k (brev k a) = a := by
+  induction k generalizing a with
+  | zero => simp at h; simp [brev, h]
+  | succ k ih =>
+    have hc := brev_lt k (a / 2)
+    have ha2 : a / 2 < 2 ^ k := by rw [pow_succ] at h; omega
+    rw [brev_succ', brev]
+    have e1 : (a % 2 * 2 ^ k + brev k (a / 2)) % 2 ^ k = brev k (a / 2) := by
+      rw [Nat.add_comm, Nat.add_mul_mod_self_right, Nat.mod_eq_of_lt hc]
+    have e2 : (a % 2 * 2 ^ k + brev k (a / 2)) / 2 ^ k = a % 2 := by
+      rw [Nat.add_comm, Nat.add_mul_div_right _ _ (by positivity), Nat.div_eq_of_lt hc]; simp
+    rw [e1, e2, ih _ ha2]
+    omega
+
+theorem brev_shift (n m a : Nat) (h : a < 2 ^ n) : brev (n + m) a = brev n a * 2 ^ m := by
+  induction n generalizing a with
+  | zero => simp at h; simp [h]
+  | succ n ih =>
+    have ha2 : a / 2 < 2 ^ n := by rw [pow_succ] at h; omega
+    have : n + 1 + m = (n + m) + 1 := by omega
+    rw [this, brev, ih _ ha2, brev, pow_add]
+    ring
+
+theorem brev_even (k c : Nat) : brev (k + 1) (2 * c) = brev k c := by
+  rw [brev]; simp
+
+theorem brev_odd (k c : Nat) : brev (k + 1) (2 * c + 1) = brev k c + 2 ^ k := by
+  rw [brev]
+  have h1 : (2 * c + 1) % 2 = 1 := by omega
+  have h2 : (2 * c + 1) / 2 = c := by omega
+  rw [h1, h2]; ring
+
+theorem foldl_rev (a n : Nat) : ∀ (s r0 : Nat),
+    (List.range' s n).foldl (fun r i => r * 2 + (a >>> i) % 2) r0 = r0 * 2 ^ n + brev n (a >>> s) := by
+  induction n with
+  | zero => intro s r0; simp [brev]
+  | succ n ih =>
+    intro s r0
+    rw [List.range'_succ, List.foldl_cons, ih, brev, Nat.shiftRight_succ, pow_succ]
+    ring
+
+theorem reverseBits64_eq (a : Nat) : reverseBits64 a = brev 64 a := by
+  unfold reverseBits64
+  rw [List.range_eq_range', foldl_rev]; simp
+
+/-- the model's `bitrev` (64-bit reverse, then shift) is bit reversal on `k` bits -/
+theorem bitrev_eq (k a : Nat) (hk : k ≤ 64) (ha : a < 2 ^ k) : bitrev a k = brev k a := by
+  unfold bitrev
+  rw [reverseBits64_eq]
+  have : 64 = k + (64 - k) := by omega
+  rw [this, brev_shift k (64 - k) a ha, ← this]
+  rcases Nat.eq_zero_or_pos k with h0 | hpos
+  · subst h0; simp at ha; subst ha; simp
+  · rw [Nat.mod_eq_of_lt (by omega), Nat.shiftRight_eq_div_pow, Nat.mul_div_cancel _ (by positivity)]
+
+/-- bit-reversed order of `0 … 2^n − 1`, top-down recursion -/
+def brOrder : Nat → List Nat
+  | 0 => [0]
+  | n + 1 => (brOrder n).map (fun i => 2 * i) ++ (brOrder n).map (fun i => 2 * i + 1)
+
+/-- the same order, bottom-up recursion (the one the iterative loops follow) -/
+def brU : Nat → List Nat
+  | 0 => [0]
+  | l + 1 => (brU l).flatMap (fun b => [b, b + 2 ^ l])
+
+theorem range_two_mul (n : Nat) :
+    List.range (2 * n) = (List.range n).flatMap (fun c => [2 * c, 2 * c + 1]) := by
+  induction n with
+  | zero => rfl
+  | succ n ih =>
+    have : 2 * (n + 1) = 2 * n + 1 + 1 := by omega
+    rw [this, List.range_succ, List.range_succ, ih, List.range_succ, List.flatMap_append]
+    simp
+
+theorem brU_eq (k : Nat) : brU k = (List.range (2 ^ k)).map (brev k) := by
+  induction k with
+  | zero => rfl
+  | succ k ih =>
+    rw [brU, ih, pow_succ', range_two_mul, List.flatMap_map, List.map_flatMap]
+    apply List.flatMap_congr
+    intro c _
+    simp [brev_even, brev_odd]
+
+theorem brOrder_eq (k : Nat) : brOrder k = (List.range (2 ^ k)).map (brev k) := by
+  induction k with
+  | zero => rfl
+  | succ k ih =>
+    have : 2 ^ (k + 1) = 2 ^ k + 2 ^ k := by rw [pow_succ]; omega
+    rw [brOrder, ih, this, List.range_add, List.map_append, List.map_map, List.map_map, List.map_map]
+    congr 1
+    · apply List.map_congr_left
+      intro a ha
+      have ha := List.mem_range.mp ha
+      simp only [Function.comp, brev_succ', Nat.mod_eq_of_lt ha, Nat.div_eq_of_lt ha]; simp
+    · apply List.map_congr_left
+      intro a ha
+      have ha := List.mem_range.mp ha
+      simp only [Function.comp, brev_succ']
+      have e1 : (2 ^ k + a) % 2 ^ k = a := by
+        rw [Nat.add_mod_left, Nat.mod_eq_of_lt ha]
+      have e2 : (2 ^ k + a) / 2 ^ k = 1 := by
+        rw [Nat.add_div_left _ (by positivity), Nat.div_eq_of_lt ha]
+      rw [e1, e2]
+
+theorem brOrder_eq_brU (k : Nat) : brOrder k = brU k := by rw [brOrder_eq, brU_eq]
+
+theorem brOrder_eq_bitrev (k : Nat) (hk : k ≤ 64) :
+    brOrder k = (List.range (2 ^ k)).map (fun i => bitrev i k) := by
+  rw [brOrder_eq]
+  apply List.map_congr_left
+  intro a ha
+  rw [bitrev_eq k a hk (List.mem_range.mp ha)]
+
 end Ark.Fft.A
